@@ -199,6 +199,16 @@ CHECKS = {
              'masks (DataCollection >= 2). One open known finding (KF-C12-1, four captured class paths).',
         technique='TLA+ spec + TLC over constants generated from the tree + replay into VersionedDict / pinned-version serializer',
         design='7/C12'),
+    'C19': dict(
+        text='Export.tla: for every (table or image, column set of float/int/text kinds, whole dataset or empty/proper/full subset, '
+             'format) TLC computes whether the format can represent the configuration and what must come back (components in order, '
+             'selected rows, preserved pixels); the registered exporters write real files, load_data reads them, and a session saved '
+             'with include_data=False on the imported dataset is restored; every stage is compared (names, order, values with NaN, '
+             'text, row selection, blanked pixels).',
+        note='Bounded: 4 rows / 2x2 pixels, 6 column sets, 5 formats (CSV, FITS table, VO table, HDF5, gridded FITS). Codec fidelity for '
+             'arbitrary values is not modelled. One open known finding (KF-C19-1).',
+        technique='TLA+ spec as enumerator/oracle of what is carried + replay through real exporters and readers',
+        design='7/C19'),
 }
 
 NOT_APPLICABLE = {}
